@@ -297,7 +297,9 @@ static void do_sq(char **w, int n) {
   coap_register_nack_handler(ctx, sq_on_nack);
   for (int i = 0; i < MAXS; i++) fs[i] = NULL;
   ctx->sendqueue_basetime = 1000;
-  coap_lock_lock(ctx, return);
+  /* internal functions run under libcoap's global lock (a no-op unless COAP_THREAD_SAFE); public API calls
+   * (sim_new_client, sim_make_pdu -> coap_session_max_pdu_size) take it themselves, so they stay outside */
+#define LOCKED(stmt) do { coap_lock_lock(ctx, break); stmt; coap_lock_unlock(ctx); } while (0)
   for (int i = 0; i < n && ok; i++) {
     char *f[6];
     int nf = split(w[i], ':', f, 6);
@@ -307,29 +309,40 @@ static void do_sq(char **w, int n) {
       coap_queue_t *node;
       if (s >= MAXS) { ok = 0; break; }
       if (!fs[s]) { fs[s] = sim_new_client(ctx, 40000 + s); }
-      node = coap_new_node();
-      node->t = strtoull(f[1], NULL, 10);
-      node->id = mid;
-      node->session = coap_session_reference_lkd(fs[s]);
-      node->pdu = sim_make_pdu(fs[s], COAP_MESSAGE_CON, COAP_REQUEST_CODE_GET, mid, tk, 2, NULL, 0);
-      sim_logf("%d", coap_insert_node(&ctx->sendqueue, node));
+      {
+        coap_pdu_t *pdu = sim_make_pdu(fs[s], COAP_MESSAGE_CON, COAP_REQUEST_CODE_GET, mid, tk, 2, NULL, 0);
+        int r = 0;
+        LOCKED({
+          node = coap_new_node();
+          node->t = strtoull(f[1], NULL, 10);
+          node->id = mid;
+          node->session = coap_session_reference_lkd(fs[s]);
+          node->pdu = pdu;
+          r = coap_insert_node(&ctx->sendqueue, node);
+        });
+        sim_logf("%d", r);
+      }
     } else if (!strcmp(f[0], "p") && nf == 1) {
-      coap_queue_t *q = coap_pop_next(ctx);
+      coap_queue_t *q = NULL;
+      LOCKED(q = coap_pop_next(ctx));
       if (!q) sim_logf("none");
-      else { sim_logf("%d.%d.%llu", sq_sess(fs, q->session), (int)q->id, (unsigned long long)q->t); coap_delete_node_lkd(q); }
+      else { sim_logf("%d.%d.%llu", sq_sess(fs, q->session), (int)q->id, (unsigned long long)q->t); LOCKED(coap_delete_node_lkd(q)); }
     } else if (!strcmp(f[0], "r") && nf == 3 && allnum(f, 1, 3)) {
       int s = atoi(f[1]);
       coap_queue_t *q = NULL;
-      int r = (s < MAXS && fs[s]) ? coap_remove_from_queue(&ctx->sendqueue, fs[s], atoi(f[2]), &q) : 0;
-      if (r && q) { sim_logf("1:%d.%d.%llu", sq_sess(fs, q->session), (int)q->id, (unsigned long long)q->t); coap_delete_node_lkd(q); }
+      int r = 0;
+      if (s < MAXS && fs[s]) LOCKED(r = coap_remove_from_queue(&ctx->sendqueue, fs[s], atoi(f[2]), &q));
+      if (r && q) { sim_logf("1:%d.%d.%llu", sq_sess(fs, q->session), (int)q->id, (unsigned long long)q->t); LOCKED(coap_delete_node_lkd(q)); }
       else sim_logf("0");
     } else if (!strcmp(f[0], "j") && nf == 2 && allnum(f, 1, 2)) {
-      sim_logf("%u", coap_adjust_basetime(ctx, strtoull(f[1], NULL, 10)));
+      unsigned r = 0;
+      LOCKED(r = coap_adjust_basetime(ctx, strtoull(f[1], NULL, 10)));
+      sim_logf("%u", r);
     } else if (!strcmp(f[0], "c") && nf == 2 && allnum(f, 1, 2)) {
       int s = atoi(f[1]);
       /* the NACK handler calls name the removed nodes, in order */
       sq_nmids = 0;
-      if (s < MAXS && fs[s]) coap_cancel_session_messages(ctx, fs[s], COAP_NACK_NOT_DELIVERABLE);
+      if (s < MAXS && fs[s]) LOCKED(coap_cancel_session_messages(ctx, fs[s], COAP_NACK_NOT_DELIVERABLE));
       sq_log_mids(sq_mids, sq_nmids);
     } else if (!strcmp(f[0], "k") && nf == 3 && allnum(f, 1, 3)) {
       int s = atoi(f[1]), tok = atoi(f[2]);
@@ -339,11 +352,11 @@ static void do_sq(char **w, int n) {
       int mids[256]; int nm = 0;
       for (coap_queue_t *q = ctx->sendqueue; q && nm < 256; q = q->next)
         if (s < MAXS && q->session == fs[s] && coap_binary_equal(&q->pdu->actual_token, &t)) mids[nm++] = (int)q->id;
-      if (s < MAXS && fs[s]) coap_cancel_all_messages(ctx, fs[s], &t);
+      if (s < MAXS && fs[s]) LOCKED(coap_cancel_all_messages(ctx, fs[s], &t));
       sq_log_mids(mids, nm);
     } else ok = 0;
   }
-  coap_lock_unlock(ctx);
+#undef LOCKED
   if (ok) {
     char b[8192]; size_t k = 0; int first = 1;
     k += (size_t)snprintf(b + k, sizeof(b) - k, "%llu/", (unsigned long long)ctx->sendqueue_basetime);
@@ -369,7 +382,13 @@ static void do_tmo(char **w, int n) {
   s->ack_timeout.fractional_part = (uint16_t)atoi(w[1]);
   s->ack_random_factor.integer_part = (uint16_t)atoi(w[2]);
   s->ack_random_factor.fractional_part = (uint16_t)atoi(w[3]);
-  printf("%u", coap_calc_timeout(s, (unsigned char)atoi(w[4])));
+  {
+    unsigned t = 0;
+    coap_lock_lock(ctx, return);
+    t = coap_calc_timeout(s, (unsigned char)atoi(w[4]));
+    coap_lock_unlock(ctx);
+    printf("%u", t);
+  }
   sim_free_all(0);
   sim_loglen = 0;
 }
